@@ -1,7 +1,7 @@
 """C14 — File encoding is transparent (DESIGN.md §3 C14): bytes are seen by one function, decoded by the BOM-sniffing API
 with the documented cascade, and every string slice downstream is triaged."""
 import re
-from vlib.mir import norm, loc_str, op_place, switch_info, loc_macro
+from vlib.mir import norm, loc_str, op_place, switch_info, loc_macro, rvalue_operands
 from vlib.facts import PRODUCT
 from rules import panics
 from rules.c04 import entry_bodies
@@ -347,6 +347,60 @@ def rule_rawbytes(ctx, rep, rid="R-C14-rawbytes"):
                 "the result of %s" % via.split("::")[-1] if via else "something else"))
 
 
+def rule_bump(ctx, rep, rid="R-C14-bump"):
+    """logos::Lexer::bump(n) moves the lexer by n *bytes* and panics when that is not a character boundary.  A callback that finds the end of
+    its token by counting characters (`chars().enumerate()`, `chars().count()`, `chars().position(..)`) and hands that count to bump works for
+    ASCII and panics - or cuts the token short - as soon as the text has a multi-byte character: the same source in another encoding is the
+    same text, so this is where 'transparent' would end.  Every argument of bump must be byte-valued: its numeric slice reaches find/rfind
+    results, str::len, len_utf8 sums, char_indices positions and constants only."""
+    from vlib.numflow import sources_of
+    r = rep.rule(rid, "every argument of logos Lexer::bump is a byte quantity (find/rfind result, str::len, len_utf8, char_indices position, constant): never a count of characters",
+                 floor=1, floor_what="calls of Lexer::bump in the parser crate")
+    CHARCOUNT = re.compile(r"Enumerate<.*Chars|iter::adapters::enumerate::Enumerate|Iterator::count$|Iterator::position$|Iterator::rposition$|::chars$")
+    n = 0
+    for b in sorted(ctx.prog.bodies.values(), key=lambda x: x.id):
+        if b.f["crate"] != "ironplc_parser" or "::test" in norm(b.id) or b.f.get("exp"):
+            continue
+        k = 0
+        for c in sorted(b.calls(), key=lambda c: (c.loc[0], c.loc[1])):
+            if not (c.callee or "").endswith("Lexer::<'source, Token>::bump") and not ((c.callee or "").split("::")[-1] == "bump" and "logos" in (c.callee or "")):
+                continue
+            n += 1
+            k += 1
+            inst = "%s|bump#%d" % (norm(b.id).split("::")[-1], k)
+            src = sources_of(ctx.prog, b, c.args[1]) if len(c.args) > 1 else set()
+            bad = sorted({x[1] for x in src if x[0] in ("call", "callk") and (CHARCOUNT.search(x[1]) or "Enumerate" in x[1])})
+            # an enumerate() index reaches the argument as a component of the pair that next() hands out (a pattern binding): follow the
+            # operands of the arithmetic back to the calls whose results they are taken from
+            if not bad:
+                seen_, work = set(), [c.args[1]]
+                while work:
+                    o = work.pop()
+                    pl = op_place(o)
+                    if pl is None:
+                        continue
+                    rt = b.root(pl)
+                    if rt[0] in seen_:
+                        continue
+                    seen_.add(rt[0])
+                    for d in b.defs.get(rt[0], []):
+                        if d[0] == "call":
+                            cal = d[2].callee or d[2].u or ""
+                            if cal.endswith("Iterator>::next") or cal.endswith("Iterator::next"):
+                                if "Enumerate<" in (d[2].ga or "") + cal and "Chars" in (d[2].ga or "") + cal:
+                                    bad.append("the index of chars().enumerate()")
+                        elif d[0] == "stmt":
+                            work += [x for x in rvalue_operands(d[3]) if op_place(x) is not None]
+            if bad:
+                r.finding(inst + "|character-count", loc_str(b.f, c.loc), "the lexer is moved by a number of *characters* (%s): with a multi-byte character before the end of the token "
+                          "the position is short and may fall inside a character (logos panics: 'Invalid Lexer bump')" % ", ".join(x.split("::")[-1][:60] for x in bad))
+            else:
+                r.ok(inst, loc_str(b.f, c.loc), "byte-valued: " + ", ".join(sorted({x[1].split("::")[-1] if x[0] in ("call", "callk") else str(x[0]) for x in src}))[:120])
+    if not n:
+        r.count_override = 1
+        r.note("no callback moves the lexer by hand today")
+
+
 def rule_bytesize(ctx, rep, rid="R-C14-bytesize"):
     """The same text has a different number of bytes in each encoding (UTF-16 takes twice the bytes of UTF-8 for ASCII text).  So nothing may
     be decided on the encoded size of a file: a limit on it accepts a program in one encoding and refuses it in another.  In the functions
@@ -392,6 +446,7 @@ def run(ctx, rep):
     rule_api(ctx, rep)
     rule_slice(ctx, rep)
     rule_samestr(ctx, rep)
+    rule_bump(ctx, rep)
     rule_rawbytes(ctx, rep)
     rule_bytesize(ctx, rep)
     from rules import c06_globals
